@@ -107,6 +107,10 @@ pub enum InputSpec {
     Unit,
     /// `evaluate(&BTreeMap<String,i64>)`
     StrKeyMap(Vec<(String, i64)>),
+    /// `evaluate_value(&[[[… leaf …]]])`: a list nested `depth` deep (kept flat in the record)
+    DeepVal { depth: u32, leaf: i64 },
+    /// `evaluate(&Chain { v, next: Some(Box<Chain …>) })`: a derived recursive struct, `depth` links
+    DeepChain { depth: u32 },
 }
 
 #[derive(Clone, Copy, Debug, PartialEq, Eq, Serialize, Deserialize)]
